@@ -98,8 +98,12 @@ def History.fuel (h : History) : Nat :=
 
 /-- Final model state of some linearization of `h`, if there is one.  `quiesce`: the run ended with
 every unfinished thread blocked, so every operation that never returned must be disabled at the end. -/
-def linearize (fl : Flavour) (cfg : Cfg) (h : History) (quiesce : Bool := false) : Option St :=
+def linearizeP (fl : Flavour) (cfg : Cfg) (h : History) (quiesce : Bool := false) :
+    Option (St × LinCore.Pend PL) :=
   (LinCore.search (sem fl cfg) quiesce h.fuel {} (init fl) [] h).1
+
+def linearize (fl : Flavour) (cfg : Cfg) (h : History) (quiesce : Bool := false) : Option St :=
+  (linearizeP fl cfg h quiesce).map (·.1)
 
 def linearizable (fl : Flavour) (cfg : Cfg) (h : History) (quiesce : Bool := false) : Bool :=
   (linearize fl cfg h quiesce).isSome
